@@ -300,6 +300,12 @@ def sibling_cases(gen, rng, tier, mod):
             progressed = True
         if not progressed and rounds > 8:
             break
+    # echo: a random sample of earlier cases once more, in reverse order, after everything else has run in this process
+    # (hidden process state that survives between unrelated calls: scratch buffers, lazily initialised tables)
+    small = [c for c in gen if sum(len(a) for a in c[1]) <= 4096]
+    if small:
+        echo = rng.sample(small, min(len(small), 40 if tier == "quick" else 200))
+        out += [(op, list(args)) for op, args in reversed(echo)]
     return out
 
 
